@@ -382,3 +382,5 @@ def replay(case):
     pre = f' after a first look at request.{PRELOOK[case["acc"]]} whose HTTP error it ignores' if (case['M'] == 64 and case['acc'] in PRELOOK) else ''
     return (f'POST body {case["body"][:80]!r} ({len(case["body"])} bytes) Content-Type {case["ctype"]!r}, {case["framing"]}, '
             f'max_memfile_size={case["M"]}, handler reads request.{case["acc"]}{pre}{" (served on a fresh worker thread)" if case.get("threaded") else ""}: {v[1]}')
+
+MANIFEST['text'] += " One application has an errors_map of its own (keyword-built errors), one tries a second accessor after ignoring the first one's HTTP error."
